@@ -31,6 +31,48 @@ def gen(rng, tier, i):
 
 from .. import gen as _gen  # noqa
 gen = _gen.with_lines(gen, ['_leave_connected_state', 'disconnect', '_reset', '_write_loop', '_read_loop_polling', '_read_loop_websocket', 'connect', '_connect_websocket'])
+_gen_general = gen
+
+
+def gen_reconnect_after_server_close(rng, tier, i):
+    """The server ends the session with a CLOSE packet and is slow to finish
+    closing its side of the socket; the application reacts the way
+    applications do - disconnect(), then connect() again - while the
+    client's own teardown may still be under way."""
+    plan = gen_client_plan(rng, dict(
+        PROFILE, cycles=[2], p_open_fail=0.0, p_server_end=1.0,
+        server_ends=['close'], p_client_disconnect=0.0,
+        p_handler_action=0.0, p_noise=0.0))
+    ops = plan['client']['ops']
+    conns = [o for o in ops if o['op'] == 'connect']
+    tl = [x for x in plan['sserver']['timeline'] if x.get('do') == 'close']
+    if len(conns) < 2 or not tl:
+        return plan
+    t0 = conns[0]['t']
+    tc = t0 + tl[0]['t']
+    d1 = rng.choice([0.05, 0.25, 1.0, 2.0, 4.0, 9.0])
+    d2 = rng.choice([0.05, 0.25, 0.5, 1.0])
+    keep = [o for o in ops if o['t'] < tc and o is not conns[1]]
+    conns[1]['t'] = tc + d1 + d2
+    keep += [{'t': tc + d1, 'op': 'disconnect'}, conns[1]]
+    # a little traffic on the new connection, so that a dead one shows
+    for k in range(rng.randint(1, 3)):
+        keep.append({'t': conns[1]['t'] + 0.5 + 0.25 * k, 'op': 'send',
+                     'data': {'k': 's', 'v': 'again-%d' % k}})
+    keep.sort(key=lambda o: o['t'])
+    plan['client']['ops'] = keep
+    plan['client']['slow_ws_write'] = rng.choice([1, 2, 4])
+    plan['horizon'] = max(plan['horizon'], conns[1]['t'] + 25.0)
+    return plan
+
+
+def gen(rng, tier, i):
+    if rng.random() < 0.06:
+        return gen_reconnect_after_server_close(rng, tier, i)
+    return _gen_general(rng, tier, i)
+
+
+gen.lines = True
 
 def run(plan, sched_values=None, sched_seed=0):
     h = run_client_scenario(plan, sched_values, sched_seed)
